@@ -139,7 +139,10 @@ def rel_c08(fp, fields):
 
 
 def rel_c18(fp, fields):
-    return fp.startswith("standstill")
+    # the bundle consists of the certificates the pool created or stored: a created certificate a receiver would
+    # refuse breaks C18 as well (the replay does not walk on through a diverging step, so the standstill steps
+    # behind it are not reached)
+    return fp.startswith("standstill") or any(f.startswith("ev.Cert.") for f in fields)
 
 
 # --------------------------------------------------------------------------- multi-slot scenarios
